@@ -139,3 +139,39 @@ Lemma t_root_cache_visible :
   t_run h_fresh OnRoot t_ctx [URec (leaf x31); URec (leaf x32)] <>
   t_run h_off OnRoot t_ctx [URec (leaf x31); URec (leaf x32)].
 Proof. vm_compute. discriminate. Qed.
+
+(* ---- F29 in miniature: a script that creates a global binding ------------------------------------- *)
+(* `var c = (typeof c === 'undefined' ? 0 : c) + 1; c` : the pooled VM keeps the global c between
+   calls (execProgram only deletes the call's ARGS), a fresh VM does not.  Cache state: the
+   disableCaching switch and the value of c in the one pooled VM.  Every hypothesis of the
+   pipeline theorems except eval_caches_sound holds (memo switch and node IDs are ignored); the
+   results differ between JS caching on and off.  C20's model excludes such scripts by type
+   (scripts are functions of the visible globals and cannot write them): that exclusion is the
+   F29 guard "scripts create no global bindings". *)
+Definition gcache := (bool * N)%type.          (* disableCaching, the pooled VM's global c *)
+Definition gc0 : gcache := (false, 0%N).
+Definition byte_of_count (n : N) : bytes := [byte_of_N (48 + n)].
+Definition geval (m : bool) (c : gcache) (s : tschema) (w : world) : option bytes * gcache :=
+  if fst c then (Some (byte_of_count 1), c)
+  else (Some (byte_of_count (snd c + 1)), (false, (snd c + 1)%N)).
+
+Definition g_run := run_env tschema bytes gcache geval (fun v => Some v) true (fun b => b) inner_text.
+Definition hg_on : hid gcache := mkHid (mkA 0%N [] true []) true (false, 0%N).
+Definition hg_off : hid gcache := mkHid (mkA 0%N [] true []) true (true, 0%N).
+
+Lemma g_cache_transparent : forall s w, fst (geval true gc0 s w) = fst (geval false gc0 s w).
+Proof. reflexivity. Qed.
+Lemma g_id_renaming : forall (f : N -> N) m s w, fst (geval m gc0 s (w_rename f w)) = fst (geval m gc0 s w).
+Proof. reflexivity. Qed.
+
+Lemma g_pool_visible :
+  g_run hg_on OnRecord [] [URec (leaf x31); URec (leaf x32); URec (leaf x33)] <>
+  g_run hg_off OnRecord [] [URec (leaf x31); URec (leaf x32); URec (leaf x33)].
+Proof. vm_compute. discriminate. Qed.
+
+Example g_run_values :
+  g_run hg_on OnRecord [] [URec (leaf x31); URec (leaf x32); URec (leaf x33)]
+    = [RRec [x31] [x31]; RRec [x32] [x32]; RRec [x33] [x33]] /\
+  g_run hg_off OnRecord [] [URec (leaf x31); URec (leaf x32); URec (leaf x33)]
+    = [RRec [x31] [x31]; RRec [x31] [x32]; RRec [x31] [x33]].
+Proof. split; vm_compute; reflexivity. Qed.
